@@ -518,52 +518,109 @@ func classifyJoined(p *Prog, st *State, e *Expr) []ErrClass {
 // bitmap covers all 256 type codes.
 func (c *Check) bitmapAgreement(rule string) {
 	p := c.P
-	type shape struct{ div, mod, bits, n int64 }
-	get := func(name string) (shape, bool) {
-		fn := p.Fn(name)
-		var s shape
-		if fn == nil {
-			return s, false
+	setFn, isSetFn := p.Fn("attrsBitmap.set"), p.Fn("attrsBitmap.isSet")
+	if setFn == nil || isSetFn == nil || len(setFn.Params) != 2 || len(isSetFn.Params) != 2 {
+		return
+	}
+	// word count and width from the receiver type
+	var nWords, bits int64
+	if pt, ok := setFn.Params[0].Type().Underlying().(*types.Pointer); ok {
+		if at, ok := pt.Elem().Underlying().(*types.Array); ok {
+			nWords, bits = at.Len(), int64(intTypeInfo(at.Elem()).bits)
 		}
-		ok := true
-		allInstrs(fn, func(in ssa.Instruction) {
-			switch x := in.(type) {
-			case *ssa.BinOp:
-				if cst, isC := x.Y.(*ssa.Const); isC && cst.Value != nil {
-					if _, isParam := x.X.(*ssa.Parameter); isParam {
-						switch x.Op {
-						case token.QUO:
-							s.div = cst.Int64()
-						case token.REM:
-							s.mod = cst.Int64()
-						}
-					}
-				}
-			case *ssa.IndexAddr:
-				if pt, isP := x.X.Type().Underlying().(*types.Pointer); isP {
-					if at, isA := pt.Elem().Underlying().(*types.Array); isA {
-						s.n = at.Len()
-						s.bits = int64(intTypeInfo(at.Elem()).bits)
-						// index must be the quotient
-						if bo, isB := x.Index.(*ssa.BinOp); !isB || bo.Op != token.QUO {
-							if cv, isCv := x.Index.(*ssa.Convert); isCv {
-								if bo2, isB2 := cv.X.(*ssa.BinOp); !isB2 || bo2.Op != token.QUO {
-									ok = false
-								}
-							} else {
-								ok = false
-							}
-						}
-					}
+	}
+	// split "word OP mask" into the index of the loaded word and the mask
+	split := func(e *Expr, op string) (idx, mask *Expr) {
+		if e == nil || e.Op != "bin" || e.binOp() != op || len(e.Args) != 2 {
+			return nil, nil
+		}
+		for k := 0; k < 2; k++ {
+			w, m := e.Args[k], e.Args[1-k]
+			if w.Op == "ld" && w.Args[0].Op == "ia" {
+				return w.Args[0].Args[1], m
+			}
+		}
+		return nil, nil
+	}
+	// set: the stored value is  a[idx] | mask  at address a[idx]
+	var sIdx, sMask *Expr
+	var sState *State
+	storeSites := map[*ssa.Store]bool{}
+	a := NewAnalysis(p, setFn)
+	a.StoreHook = func(st *State, addr, val *Expr, in *ssa.Store) {
+		if addr.Op != "ia" || in.Parent() != setFn {
+			return
+		}
+		storeSites[in] = true
+		idx, mask := split(val, "|")
+		if idx != nil && idx.Key == addr.Args[1].Key {
+			sIdx, sMask, sState = idx, mask, st.clone()
+		}
+	}
+	a.Run()
+	// isSet: returns  a[idx] & mask != 0
+	var gIdx, gMask *Expr
+	var gState *State
+	g := NewAnalysis(p, isSetFn)
+	g.Run()
+	for _, r := range g.Returns {
+		e := r.Results[0]
+		if e.Op == "bin" && e.binOp() == "!=" && len(e.Args) == 2 {
+			for k := 0; k < 2; k++ {
+				if z, isC := e.Args[k].IsConst(); isC && z == 0 {
+					gIdx, gMask = split(e.Args[1-k], "&")
+					gState = r.State
 				}
 			}
-		})
-		return s, ok && s.div > 0 && s.mod > 0
+		}
 	}
-	a, okA := get("attrsBitmap.set")
-	b, okB := get("attrsBitmap.isSet")
-	ok := okA && okB && a == b && a.div == a.bits && a.mod == a.bits && a.n*a.bits >= 256
-	c.require(ok, rule, "attrsBitmap", "set/isSet agree", "-", fmt.Sprintf("both use word b/%d and bit b%%%d of a [%d]uint%d (set: %+v, isSet: %+v)", a.bits, a.bits, a.n, a.bits, a, b))
+	if sIdx == nil || gIdx == nil || len(storeSites) != 1 || len(g.Returns) != 1 || len(a.Undecided)+len(g.Undecided) > 0 {
+		c.fail(rule, "attrsBitmap", "set/isSet shape", p.Pos(setFn.Pos()), fmt.Sprintf("expected set: a[i] |= m (one store) and isSet: a[i]&m != 0; set=(%v,%v) isSet=(%v,%v)", sIdx, sMask, gIdx, gMask))
+		return
+	}
+	// decide over the whole domain of the uint8 argument by folding the terms
+	sb, gb := paramExpr(setFn, 1), paramExpr(isSetFn, 1)
+	eval := func(st *State, e, param *Expr, v int64) (int64, bool) {
+		t := st.clone()
+		t.rng[param.Key] = isConst(v)
+		return t.rangeOf(e).IsConst()
+	}
+	seen := map[[2]int64]int64{}
+	folded, ok, detail := true, true, ""
+	for b := int64(0); b < 256 && ok; b++ {
+		si, ok1 := eval(sState, sIdx, sb, b)
+		sm, ok2 := eval(sState, sMask, sb, b)
+		gi, ok3 := eval(gState, gIdx, gb, b)
+		gm, ok4 := eval(gState, gMask, gb, b)
+		if !(ok1 && ok2 && ok3 && ok4) {
+			folded = false
+			break
+		}
+		switch {
+		case si != gi || sm != gm:
+			ok, detail = false, fmt.Sprintf("code %d: set touches word %d mask %#x but isSet reads word %d mask %#x", b, si, sm, gi, gm)
+		case si < 0 || si >= nWords:
+			ok, detail = false, fmt.Sprintf("code %d: word index %d outside [0,%d)", b, si, nWords)
+		case sm <= 0 || sm&(sm-1) != 0:
+			ok, detail = false, fmt.Sprintf("code %d: mask %#x is not a single bit", b, sm)
+		default:
+			if prev, dup := seen[[2]int64{si, sm}]; dup {
+				ok, detail = false, fmt.Sprintf("codes %d and %d share word %d mask %#x", prev, b, si, sm)
+			}
+			seen[[2]int64{si, sm}] = b
+		}
+	}
+	if !folded {
+		// terms too wide to fold (64-bit words): fall back to identical
+		// canonical terms of the canonical shape b/W, 1<<(b%W)
+		norm := func(e *Expr, from, to *Expr) string { return strings.ReplaceAll(e.Key, from.Key, to.Key) }
+		same := norm(sIdx, sb, gb) == gIdx.Key && norm(sMask, sb, gb) == gMask.Key
+		shape := strings.Contains(gIdx.Key, fmt.Sprintf("const:%d", bits)) && strings.Contains(gMask.Key, fmt.Sprintf("const:%d", bits)) && nWords*bits >= 256
+		ok = same && shape
+		detail = fmt.Sprintf("terms not foldable; identical terms=%v canonical shape=%v", same, shape)
+	}
+	c.require(ok, rule, "attrsBitmap", "set/isSet agree", p.Pos(setFn.Pos()),
+		fmt.Sprintf("for every code 0..255 set and isSet address the same word (< %d) and the same single bit, and distinct codes get distinct bits (terms folded over the whole uint8 domain) %s", nWords, detail))
 }
 
 // decoderStateless: the partition of one UPDATE depends on that UPDATE only.
